@@ -799,15 +799,12 @@ impl StoryState {
         // except with the current flow replaced with the copy above
         // (Assuming we're in multi-flow mode at all. If we're not then
         // the above copy is simply the default flow copy and we're done)
+        // (Unlike the reference implementation, the current flow is kept out of
+        // named_flows here, so the copy must not put a second, soon stale, copy of
+        // it in there: write_json would write it over the current flow.)
         if self.named_flows.is_some() {
-            let mut nf = self.named_flows.clone();
-            nf.as_mut().unwrap().insert(
-                copy.current_flow.name.to_string(),
-                copy.current_flow.clone(),
-            );
+            copy.named_flows = self.named_flows.clone();
             copy.alive_flow_names_dirty = true;
-
-            copy.named_flows = nf;
         }
 
         if self.has_error() {
